@@ -108,13 +108,6 @@ func VerifC10RangesBW() {
 	verifAssert(verifOr(!ov, got == want), "C10.ranges.black-white/overlapping")
 }
 
-func verifB2I(b bool) int64 {
-	if b {
-		return 1
-	}
-	return 0
-}
-
 // verifOverlap: some valid range contains another valid range's left end
 // (overlapping or nested configuration) - the class of a failing witness.
 func verifOverlap(rs []verifRange16) bool {
